@@ -140,6 +140,22 @@ theorem replay_recorded_noop_perm (H : Bytes → Str) (st : DState) (hs : C15.Do
     simp [objGet] at hrs; subst hrs
     exact hc rec (hp.subset hrec)
 
+/-! ### The order of the records of an export does not matter (they are listed in hash-map order) -/
+
+/-- **replaying the staged changes in any order records the same revisions**: for every permutation `cs'` of the
+    exported change records `cs` (the staged revisions of `docs`, replayed onto the unstaged map `D`), every tree
+    ends with the same entries - hence (`C05.leafs_perm`, `C05.winner_perm`) the same leaves and winner.  The seeded
+    change C18-d (an update record skipped when its object is not known YET) breaks exactly this; the harness replays
+    every export a second time with its records reversed. -/
+theorem stageAll_perm {docs : List (Str × RevTree)} (hk : ∀ u, C05.KeysNodup (C15.entriesOf docs u))
+    {cs cs' : List Change} (hp : cs'.Perm cs)
+    (hcs : ∀ c ∈ cs, (⟨c.rev, c.parent, true⟩ : RtEntry) ∈ C15.entriesOf docs c.uuid)
+    (D : List (Str × RevTree)) (hD : C15.DocsSorted D) (hsub : ∀ u, ∀ e ∈ C15.entriesOf D u, e ∈ C15.entriesOf docs u)
+    (u : Str) (e : RtEntry) :
+    e ∈ C15.entriesOf (C15.stageAll D cs') u ↔ e ∈ C15.entriesOf (C15.stageAll D cs) u := by
+  rw [C15.stageAll_replay hk cs' (fun c hc => hcs c (hp.subset hc)) D hD hsub,
+    C15.stageAll_replay hk cs hcs D hD hsub, hp.mem_iff]
+
 /-! ### Non-vacuity: a committed object, its export replayed -/
 
 section Example
